@@ -43,10 +43,14 @@ InsertText(nodes, par, ref, s) ==
                      n1 == Append(nodes, [MkNode("text", "", <<>>, <<>>, s) EXCEPT !.par = par])
                  IN [n1 EXCEPT ![par].kids = InsertAt(@, pos, id)]
 \* move all children of `from` to the end of `to`
-RECURSIVE ReparentKids(_, _, _)
-ReparentKids(nodes, from, to) ==
-    IF nodes[from].kids = <<>> THEN nodes
-    ELSE ReparentKids(AppendChild(nodes, to, nodes[from].kids[1]), from, to)
+\* (a template's contents node is not a child in the DOM sense: it stays)
+RECURSIVE ReparentKidsFrom(_, _, _, _)
+ReparentKidsFrom(nodes, from, to, i) ==
+    IF i > Len(nodes[from].kids) THEN nodes
+    ELSE LET k == nodes[from].kids[i] IN
+         IF nodes[k].k = "content" THEN ReparentKidsFrom(nodes, from, to, i + 1)
+         ELSE ReparentKidsFrom(AppendChild(nodes, to, k), from, to, i)
+ReparentKids(nodes, from, to) == ReparentKidsFrom(nodes, from, to, 1)
 HasContent(nodes, id) == nodes[id].kids # <<>>
 
 \* ---- canonical nested form (adjacent text merged, node ids forgotten) ----
